@@ -1,4 +1,5 @@
 import Sop.Model.StoreRepo
+import Sop.Lemmas.StoreRepoLock
 /-!
 # C12 — creating and removing stores is transactional and complete
 
@@ -14,6 +15,20 @@ Theorems over `Sop.StoreRepo` (the model of `NewBtree` / `OpenBtree` / `Rollback
 * `create_race_legacy_counterexample` — on the unrepaired tree the loser's cleanup deletes the winner's store;
 * `remove_complete` — `RemoveBtree(n)` followed by `NewBtree(n, o')` creates a fresh, empty store with options `o'`;
 * `names_nodup_step` — the catalogue never lists a name twice.
+
+The atomicity of one `StoreRepository.Add` assumed above is itself proved one level below, over
+`Sop.StoreRepoLock` (one step per program point of `Add`: lock, read the list, check, write, cache, unlock), for
+**any number** of concurrent callers and **every** interleaving of their steps (namespace `Sop.C12.Lock`):
+
+* `add_race_locked` (= `Statement_add_race false`) — at most one caller per name is told it created the store; the
+  store list entry, the store info file and the cache entry of that name are the ones of that caller; no name of the
+  initial list and no created store is dropped from the list; the lock is held by exactly the caller inside the
+  critical section;
+* `add_race_exactly_one`, `add_race_list_exact` — when everybody has returned: a caller refused with "exists" for a
+  name that was not there initially has exactly one winner; the list is the initial list plus the winners' names;
+* `add_race_outside_counterexample` (= `¬ Statement_add_race true`) — with the read-and-check done before taking
+  the lock the statement fails (two winners, the first winner's store info overwritten, a third party's store
+  dropped from the list).
 -/
 namespace Sop.C12
 open Sop.StoreRepo
@@ -596,3 +611,116 @@ example : Won 1 "sa" 1 ⟨4, true⟩ (run true {} [.begin 1, .begin 2, .lookupNe
     · simp [run, step, newLookup, newResume, setTxn, live, lookup, has, createdNames, h1, h2]
 
 end Sop.C12
+
+/-! ## Lock level: concurrent `StoreRepository.Add` calls -/
+namespace Sop.C12.Lock
+open Sop.StoreRepoLock
+
+/-- Full-strength statement about concurrent creators, for either order of `Add`'s steps (`outside = false`: the
+code's order, check and write under the lock). -/
+def Statement_add_race (outside : Bool) : Prop :=
+  ∀ (s0 : State) (sched : List Nat), Start s0 →
+    let s := run outside s0 sched
+    -- at most one caller per name is told it created the store
+    (∀ i j, told (s.actor i) → told (s.actor j) → (s.actor i).name = (s.actor j).name → i = j) ∧
+    -- the catalogue describes the store of the caller that was told so: list, store info file, cache entry
+    (∀ i, told (s.actor i) → (s.actor i).name ∈ s.list ∧ s.info (s.actor i).name = some (s.actor i).inf ∧
+      s.cache (s.actor i).name = some (s.actor i).inf) ∧
+    -- no store that was there is dropped
+    (∀ n, n ∈ s0.list → n ∈ s.list) ∧
+    -- mutual exclusion
+    (∀ i, s.lock = some i ↔ inCS (s.actor i).pc = true)
+
+theorem add_race_locked : Statement_add_race false := by
+  intro s0 sched h0
+  have h := inv_run sched (inv_start h0)
+  refine ⟨?_, ?_, ?_, h.hold⟩
+  · intro i j hi hj hn
+    exact h.uniq i j (Or.inr (Or.inr hi)) (Or.inr (Or.inr hj)) hn
+  · intro i hi
+    have := h.own i (Or.inr (Or.inr hi))
+    exact ⟨this.1, this.2.1, this.2.2 (by rw [hi.1]; simp)⟩
+  · intro n hn
+    exact (h.src n).mpr (Or.inl hn)
+
+/-- When every caller has returned, the store list is exactly the initial list plus the names of the callers that
+were told they created a store. -/
+theorem add_race_list_exact (s0 : State) (sched : List Nat) (h0 : Start s0)
+    (hdone : ∀ k, ((run false s0 sched).actor k).pc = .done) (n : String) :
+    n ∈ (run false s0 sched).list ↔ n ∈ s0.list ∨ ∃ i, told ((run false s0 sched).actor i) ∧ ((run false s0 sched).actor i).name = n := by
+  have h := inv_run sched (inv_start h0)
+  rw [h.src n]
+  constructor
+  · rintro (hb | ⟨i, ho, hn⟩)
+    · exact Or.inl hb
+    · rcases ho with ho | ho | ho
+      · rw [hdone i] at ho; cases ho
+      · rw [hdone i] at ho; cases ho
+      · exact Or.inr ⟨i, ho, hn⟩
+  · rintro (hb | ⟨i, ht, hn⟩)
+    · exact Or.inl hb
+    · exact Or.inr ⟨i, Or.inr (Or.inr ht), hn⟩
+
+/-- When every caller has returned: a caller that was refused because the name exists, for a name that was not in
+the initial list, has exactly one winner. -/
+theorem add_race_exactly_one (s0 : State) (sched : List Nat) (h0 : Start s0)
+    (hdone : ∀ k, ((run false s0 sched).actor k).pc = .done) (i : Nat)
+    (hres : ((run false s0 sched).actor i).res = .exists_) (hnew : ((run false s0 sched).actor i).name ∉ s0.list) :
+    ∃ j, (told ((run false s0 sched).actor j) ∧ ((run false s0 sched).actor j).name = ((run false s0 sched).actor i).name) ∧
+      ∀ j', told ((run false s0 sched).actor j') ∧ ((run false s0 sched).actor j').name = ((run false s0 sched).actor i).name → j' = j := by
+  have h := inv_run sched (inv_start h0)
+  have hin := h.refused i (Or.inr ⟨hdone i, hres⟩)
+  rcases (add_race_list_exact s0 sched h0 hdone _).mp hin with hb | ⟨j, ht, hn⟩
+  · exact absurd hb hnew
+  · refine ⟨j, ⟨ht, hn⟩, ?_⟩
+    rintro j' ⟨ht', hn'⟩
+    exact h.uniq j' j (Or.inr (Or.inr ht')) (Or.inr (Or.inr ht)) (hn'.trans hn.symm)
+
+/-! the check-outside-the-lock order: creator 1 reads the list and passes the check, a third party (3) adds `sb`,
+creator 2 adds `sa`, creator 1 takes the lock and writes from its stale snapshot -/
+
+def raceStart : State :=
+  { list := ["so"],
+    actor := fun i =>
+      if i = 1 then { kind := .add, name := "sa", inf := ⟨1, 4, true⟩, pc := .init }
+      else if i = 2 then { kind := .add, name := "sa", inf := ⟨2, 8, false⟩, pc := .init }
+      else if i = 3 then { kind := .add, name := "sb", inf := ⟨3, 8, false⟩, pc := .init }
+      else {} }
+
+def raceSched : List Nat := [1, 1, 1] ++ List.replicate 7 3 ++ List.replicate 7 2 ++ List.replicate 4 1
+
+theorem raceStart_start : Start raceStart := by
+  refine ⟨rfl, fun i => ?_⟩
+  by_cases h1 : i = 1
+  · subst h1; exact ⟨rfl, Or.inl rfl⟩
+  · by_cases h2 : i = 2
+    · subst h2; exact ⟨rfl, Or.inl rfl⟩
+    · by_cases h3 : i = 3
+      · subst h3; exact ⟨rfl, Or.inl rfl⟩
+      · simp [raceStart, h1, h2, h3]
+
+/-- what the stale snapshot does: both creators of `sa` are told they created it, the store info file and the cache
+entry are creator 1's although creator 2 was told first, and the third party's `sb` is gone from the list -/
+theorem add_race_outside_witness :
+    let s := run true raceStart raceSched
+    ((s.actor 1).pc = .done ∧ (s.actor 1).res = .created) ∧ ((s.actor 2).pc = .done ∧ (s.actor 2).res = .created) ∧
+    ((s.actor 3).pc = .done ∧ (s.actor 3).res = .created) ∧
+    s.info "sa" = some ⟨1, 4, true⟩ ∧ s.cache "sa" = some ⟨1, 4, true⟩ ∧ s.list = ["so", "sa"] := by
+  decide +kernel
+
+/-- the corresponding schedule on the code's order (creator 1 parked right before `DualLock`, the third party and
+creator 2 run, creator 1 goes on): creator 1 is refused, nothing is lost -/
+theorem add_race_locked_witness :
+    let s := run false raceStart ([1] ++ List.replicate 7 3 ++ List.replicate 7 2 ++ List.replicate 4 1)
+    ((s.actor 1).pc = .done ∧ (s.actor 1).res = .exists_) ∧
+    ((s.actor 2).pc = .done ∧ (s.actor 2).res = .created) ∧ ((s.actor 3).pc = .done ∧ (s.actor 3).res = .created) ∧
+    s.info "sa" = some ⟨2, 8, false⟩ ∧ s.cache "sa" = some ⟨2, 8, false⟩ ∧ s.list = ["so", "sb", "sa"] := by
+  decide +kernel
+
+theorem add_race_outside_counterexample : ¬ Statement_add_race true := by
+  intro h
+  have hw := add_race_outside_witness
+  have := (h raceStart raceSched raceStart_start).1 1 2 hw.1 hw.2.1 (by decide +kernel)
+  exact absurd this (by decide)
+
+end Sop.C12.Lock
